@@ -72,8 +72,8 @@ def _in_toto_frames(report):
     return out
 
 
-def _run(ctx, spec, tag, seed_off=0):
-    binp = ctx.go_build('c16', race=True)
+def _run(ctx, spec, tag, seed_off=0, binp=None, env_extra=None):
+    binp = binp or ctx.go_build('c16', race=True)
     work = os.path.join(ctx.dir, 'work-' + tag)
     shutil.rmtree(work, ignore_errors=True)
     out = os.path.join(ctx.dir, 'batches-%s.jsonl' % tag)
@@ -81,6 +81,7 @@ def _run(ctx, spec, tag, seed_off=0):
         os.remove(out)
     g, rounds, procs, yld, mixes = spec
     env = {'GORACE': GORACE}
+    env.update(env_extra or {})
     if seed_off:
         env['VERIF_SEED'] = str(ctx.seed + seed_off)
     # every phase of every batch has its own deadline inside the harness (exit 77); this outer limit is a backstop
@@ -255,30 +256,38 @@ def correspondence(ctx):
             v['case']['input']['cold_start_process'] = True
             v['case']['input']['verif_seed'] = ctx.seed + 1000 + i
             viol.append(v)
-    # process-global state: relative paths against a fixed working directory while others verify with slow inspections
-    cspec = ('4,8', 1, '0', '0', 'cwd-relative') if ctx.tier == 'quick' else ('4,8,16', 2, '0,4', '2', 'cwd-relative')
-    rc3, o3, b3 = _run(ctx, cspec, 'cwd', seed_off=5000)
-    for b in b3:
-        b['id'] += 200000
-    v3 = _violations(rc3, o3, b3)
-    for v in v3:
-        v['case']['input']['verif_seed'] = ctx.seed + 5000
-    viol += v3
-    batches += b3
-    nrace += o3.count('WARNING: DATA RACE')
-    rcs.append(rc3)
-    # the same inspection name in every layout: <name>.link in the working directory is written by all of them
-    sspec = ('12,16', 1, '0', '0', 'shared-inspection-name') if ctx.tier == 'quick' else ('8,12,16', 3, '0,4', '0', 'shared-inspection-name')
-    rc4, o4, b4 = _run(ctx, sspec, 'same', seed_off=7000)
-    for b in b4:
-        b['id'] += 400000
-    v4 = _violations(rc4, o4, b4)
-    for v in v4:
-        v['case']['input']['verif_seed'] = ctx.seed + 7000
-    viol += v4
-    batches += b4
-    nrace += o4.count('WARNING: DATA RACE')
-    rcs.append(rc4)
+    # mixes that run in processes of their own, side by side (the main run above has the machine for itself):
+    #   cwd       process-global state: relative paths against a fixed working directory while others verify with slow inspections
+    #   same      the same inspection name in every layout: <name>.link in the working directory is written by all of them
+    #   multialg  every goroutine records its own sized files under one / all three hash algorithms, GOMAXPROCS default and 1;
+    #             every digest compared with crypto/sha* computed by the harness
+    #   rejected  verifications whose step carries 2-4 links that must be rejected beside the honest ones
+    #   loadkeys  every goroutine loads its own RSA-2048 / P-256 / P-384 / ed25519 key pairs many times
+    q = ctx.tier == 'quick'
+    side = [
+        ('cwd', ('4,8', 1, '0', '0', 'cwd-relative') if q else ('4,8,16', 2, '0,4', '2', 'cwd-relative'), 5000, 200000, {}),
+        ('same', ('12,16', 1, '0', '0', 'shared-inspection-name') if q else ('8,12,16', 3, '0,4', '0', 'shared-inspection-name'), 7000, 400000, {}),
+        ('multialg', ('8', 1, '0,1', '0', 'record-multi-alg') if q else ('8,16,32', 3, '0,1,4', '2', 'record-multi-alg'), 9000, 500000, {}),
+        ('rejected', ('8', 1, '0', '0', 'verify-with-rejected-links') if q else ('8,16', 4, '0,2', '2', 'verify-with-rejected-links'), 11000, 600000, {}),
+        ('loadkeys', ('8', 1, '0', '0', 'load-keys') if q else ('8,16', 3, '0', '2', 'load-keys'), 13000, 700000,
+         {'C16_LOAD_ITER': '40' if q else '250'}),
+    ]
+    binp = ctx.go_build('c16', race=True)
+    from concurrent.futures import ThreadPoolExecutor
+    with ThreadPoolExecutor(max_workers=len(side)) as ex:
+        futs = [(tag, soff, idoff, ex.submit(_run, ctx, spec, tag, soff, binp, envx)) for (tag, spec, soff, idoff, envx) in side]
+        for tag, soff, idoff, fut in futs:
+            rcs_, os_, bs_ = fut.result()
+            for b in bs_:
+                b['id'] += idoff
+            for v in _violations(rcs_, os_, bs_):
+                v['case']['input']['verif_seed'] = ctx.seed + soff
+                if tag == 'loadkeys':
+                    v['case']['input']['C16_LOAD_ITER'] = '40' if q else '250'
+                viol.append(v)
+            batches += bs_
+            nrace += os_.count('WARNING: DATA RACE')
+            rcs.append(rcs_)
     corr.evaluations = len(batches)
     corr.distinct_nontrivial = len(set((b['mix'], b['goroutines'], b['gomaxprocs'], b['yield'], b['seed']) for b in batches
                                        if b['goroutines'] >= 2 and b['calls'] >= 2))
@@ -298,6 +307,14 @@ def correspondence(ctx):
                  "(RunInspections writes <name>.link into the working directory), strict inspection rules (MATCH the unpacked file WITH "
                  "PRODUCTS FROM the step, ALLOW README, DISALLOW *); odd goroutines have a disallowed extra file in the run directory "
                  "(must be rejected), even ones are clean (must be accepted with their own summary link). "
+                 "Mix record-multi-alg (8 goroutines, GOMAXPROCS default and 1; thorough 8/16/32 x {default,1,4}): RecordArtifacts / InTotoRun "
+                 "on the goroutine's own files of 1 B .. 2 MiB with [sha256,sha384,sha512] together and singly; every digest is also "
+                 "compared with crypto/sha* computed by the harness. Mix verify-with-rejected-links (8 goroutines x 4 verifications): "
+                 "beside 1-2 honest links the step carries 2-4 links that must be rejected (unauthorised signer, broken signature, "
+                 "certificate failing the step's constraints), thresholds met and not met. Mix load-keys (8 goroutines): each loads its own "
+                 "RSA-2048, P-256, P-384 and ed25519 private and public PEM 40 times per call (thorough 250; > 5000 loads per batch and phase), "
+                 "every load compared with the first one and the public half with the PEM/raw key produced by the harness. "
+                 "These five mixes run in processes of their own, side by side. "
                  "non-trivial = at least 2 goroutines and 2 calls; distinct = distinct (mix, G, GOMAXPROCS, yield, seed)")
     calls, kinds, errs, trees = 0, {}, {}, {}
     for b in batches:
@@ -366,7 +383,10 @@ def replay(ctx, case):
     # a finding made in a cold-start process (lazy initialisation) needs fresh processes to show again
     nproc, times = (10, 2) if inp.get('cold_start_process') else (1, 20)
     for k in range(nproc):
-        rc, o = ctx.run([binp, 'replay', p, str(times)], timeout=1200, env={'GORACE': GORACE})
+        renv = {'GORACE': GORACE}
+        if inp.get('C16_LOAD_ITER'):
+            renv['C16_LOAD_ITER'] = str(inp['C16_LOAD_ITER'])
+        rc, o = ctx.run([binp, 'replay', p, str(times)], timeout=1200, env=renv)
         o = re.sub(r'C16-BATCH (begin|end)[^\n]*\n', '', o)
         print(o[-12000 // nproc:])
         print('process %d/%d: exit code %d (66 = the race detector reported at least one data race, 77 = a phase did not return within its deadline)' % (k + 1, nproc, rc))
